@@ -315,8 +315,8 @@ def run(ctx, report):
     from common import Only
     from rules import c13
     # from_str's trailing-data check presupposes that decode leaves exactly the unread suffix in the cursor
-    c13.run(ctx, Only(report, {"MODEL": "CURSOR", "OUTER": "CURSOR", "PAYLOAD": "CURSOR", "SUFFIX": "CURSOR"}))
+    c13._own_run(ctx, Only(report, {"MODEL": "CURSOR", "OUTER": "CURSOR", "PAYLOAD": "CURSOR", "SUFFIX": "CURSOR"}))
     # "any bytes after the record are rejected" includes bytes smuggled inside an enlarged list: the pair loop ends only on an empty payload
     from rules import c02
-    c02.run(ctx, Only(report, {"LOOP": "LOOP", "SKEL": "SKEL"}))
+    c02._own_run(ctx, Only(report, {"LOOP": "LOOP", "SKEL": "SKEL"}))
 
